@@ -386,6 +386,8 @@ def harnesses(tier):
         for sh in (0, 1):
             for pre in (0, 1, 2):
                 for ac in (0, 1):
+                    if sh == 1 and pre != 0:
+                        continue          # (shared operand objects with reordered storage: covered for n=3 in the quick tier)
                     hs.append(Harness('removal n=4 shared=%d %s prelude=%d' % (sh, ['remove', 'update_id'][ac], pre), body_removal,
                                       params=dict(n_derived=4, share=sh, action=ac, preludes=(pre,)), validate=30, weight=9, wall_s=3400,
                                       max_paths=1000000, bounds=dict(stored=2, derived=4, action=['remove', 'update_id'][ac],
